@@ -228,6 +228,17 @@ func clampName(t types.Type, sizes types.Sizes) string {
 
 func (ev *EvalCtx) clamp(v Val, t types.Type) Val {
 	if v.T != nil {
+		if v.T.Sort == SPtr {
+			// pointers to standalone struct types always point at the start of their allocation
+			// pointers to standalone struct types always point at the start of their allocation
+			if pt, ok := t.Underlying().(*types.Pointer); ok && ev.fc.eng.ti.Standalone(pt.Elem()) {
+				*ev.qn++
+				x := fmt.Sprintf("p!l%d", *ev.qn)
+				base := IntLit(ev.fc.eng.ti.BaseSlot(pt.Elem()))
+				return scalar(mk(SPtr, fmt.Sprintf("(let ((%s %s)) (mkptr (pobj %s) (ite (= (pobj %s) 0) 0 %s)))", x, v.T.S, x, x, base.S)))
+			}
+			return v
+		}
 		if v.T.Sort == SInt {
 			if name := clampName(t, ev.fc.eng.ti.sizes); name != "" {
 				return scalar(app(SInt, name, v.T))
@@ -677,6 +688,24 @@ func (ev *EvalCtx) evalCall(e ECall) TV {
 		k := ev.eval(e.Args[0])
 		arr := ev.seenArray(k.V.T.Sort, "")
 		return TV{V: scalar(Select(arr, k.V.T))}
+	case "seencount":
+		// seencount(): number of keys the (unique) active map range has visited so far
+		argn(0)
+		var found *Term
+		n := 0
+		for k, g := range ev.cur.ghosts {
+			if strings.HasPrefix(k, "seencnt:") {
+				if ev.fr != nil && ev.at != nil && !ev.fr.rangeActiveAt(strings.TrimPrefix(k, "seencnt:"), ev.at) {
+					continue
+				}
+				found = g
+				n++
+			}
+		}
+		if n != 1 {
+			ev.fail("seencount(): %d candidate map ranges", n)
+		}
+		return TV{V: scalar(found)}
 	case "typeis":
 		// typeis(x, "T"): dynamic type of interface x is T
 		argn(2)
@@ -1086,6 +1115,7 @@ func (fc *FnCtx) havocItems(st *State, items []locItem) {
 				}
 				h := fc.leafHeap(st, s)
 				fv := fc.sc.Fresh("hvrow", ArrSort(SInt, s))
+				fc.wfHeapFact(fv, fc.hvBound)
 				fc.setHeap(st, leafHeapName(s), Store(h, it.obj, fv))
 			}
 		case "map":
@@ -1096,10 +1126,12 @@ func (fc *FnCtx) havocItems(st *State, items []locItem) {
 			for _, s := range []Sort{SInt, SBool, SStr, SPtr, SSlice, SIface, SFlt} {
 				st.heaps[leafHeapName(s)] = fc.sc.Fresh("hvall", HeapSort(s))
 				fc.heapSorts[leafHeapName(s)] = HeapSort(s)
+				fc.wfHeapFact(st.heaps[leafHeapName(s)], fc.hvBound)
 			}
 			for name, srt := range fc.heapSorts {
 				if strings.HasPrefix(name, "M") {
 					st.heaps[name] = fc.sc.Fresh("hvall", srt)
+					fc.wfHeapFact(st.heaps[name], fc.hvBound)
 				}
 			}
 		}
